@@ -211,6 +211,7 @@ func c06CheckLabels(pipes []*c06Pipe, ctx string) (fails []Fail) {
 			continue
 		}
 		if p.id != strings.Join(p.keys, ",") {
+			// (a record routed to a pipeline that was created for another key tuple shows up here, and in its tag and labels)
 			fails = append(fails, Fail{"c06:id:wrong", fmt.Sprintf("%sthe pipeline that serves keys %s has id / queue name %q", ctx, c06Q(p.keys), p.id)})
 		}
 		if want := c06RefLabels(p.keys); !c06EqTuple(p.labels, want) {
@@ -604,13 +605,6 @@ func c06RunRoute(c *Case) (out string, fails []Fail) {
 			fails = append(fails, Fail{"c06:pipeline-shared:" + c06PairClass(p.keys, t),
 				fmt.Sprintf("record with keys %s was routed to the pipeline that serves %s (id %q tag %q); template %q",
 					c06Q(t), c06Q(p.keys), p.id, p.tag, tmpl)})
-			continue
-		}
-		if p.id != strings.Join(t, ",") {
-			// the pipeline was created for another key tuple than the one of the records it gets
-			other := strings.Split(p.id, ",")
-			fails = append(fails, Fail{"c06:pipeline-shared:" + c06PairClass(other, t),
-				fmt.Sprintf("record with keys %s was routed to the pipeline created with id %q (tag %q); template %q", c06Q(t), p.id, p.tag, tmpl)})
 			continue
 		}
 		if refOK {
